@@ -2,7 +2,10 @@ use aws_lc_rs::cipher::{AES_256, UnboundCipherKey};
 use aws_lc_rs::constant_time;
 use aws_lc_rs::hmac::{self, HMAC_SHA384};
 use aws_lc_rs::iv::FixedLength;
+#[cfg(not(paseto_verif))]
 use aws_lc_rs::rand::{SecureRandom, SystemRandom};
+#[cfg(paseto_verif)]
+use crate::verif::{SecureRandom, SystemRandom};
 use paseto_core::PasetoError;
 use paseto_core::paserk::PieWrapVersion;
 
